@@ -146,6 +146,8 @@ func e2eCases(c *vlib.Check) []e2eCase {
 	canon := []kernelSpec{
 		mk(4, 130, phase{Kind: "loadwait", N: 3, K: 1}, phase{Kind: "delay", Base: 1, Per: 9, Mask: 3}, phase{Kind: "ldsx", N: 2, Loop: true, Delta: 64}),
 		mk(2, 1, phase{Kind: "exit", Mask: 1}, phase{Kind: "delay", Base: 30, Mask: 1}, phase{Kind: "ldsx", N: 1, Delta: 64}),
+		// three of six wavefronts leave one after the other when the rest is parked at the 2nd barrier
+		eeKernel(eeSpec{W: 6, NWG: 3, Exits: []int{4, 0, 3}, Before: 1, After: 2, Order: "late", Store: true}, nil, 0x01000193, 0x9e3779b9, 1419),
 	}
 	for i, k := range canon {
 		out = append(out, e2eCase{ID: fmt.Sprintf("canon-e2e-%d-timing", i), Kernel: k, Timing: true})
@@ -271,7 +273,7 @@ func runE2E(c *vlib.Check, cases []e2eCase) {
 // dumpKernel prints the disassembly of a canonical scenario's kernel with the
 // simulator's own decoder (development aid: C14_DUMP=<scenario name>).
 func dumpKernel(name string) {
-	for _, sc := range canonical() {
+	for _, sc := range append(canonical(), canonicalEarlyExit()...) {
 		if sc.Name != name {
 			continue
 		}
